@@ -123,6 +123,7 @@ struct World
   bool fill_enabled;
   bool in_child;
   std::vector<std::string> deleted;
+  int eof_reads;             // readline() calls answered with NULL after the scripted end of input
 };
 
 extern World W;
